@@ -48,7 +48,7 @@ use crate::{
     indexer::{Indexer, sentry::Sentry},
     inflight::{
         Enqueue, FetchOrTake, FetchTarget, InflightManager, Notifier, OptionalFetch, OptionalFetchBuilder,
-        RequiredFetch, RequiredFetchBuilder, Waiter,
+        RequiredFetch, RequiredFetchBuilder, Taken, Waiter,
     },
     pipe::{ArcPipe, NoopPipe},
     record::{Data, Record},
@@ -137,18 +137,15 @@ where
         }
     }
 
-    #[expect(clippy::type_complexity)]
     fn emplace(
         &mut self,
         record: Arc<Record<E>>,
         garbages: &mut Vec<(Event, Arc<Record<E>>)>,
-        notifiers: &mut Vec<Notifier<Option<RawCacheEntry<E, S, I>>>>,
+        taken: &mut Option<Taken<E, S, I>>,
     ) {
-        *notifiers = self
-            .inflights
-            .lock()
-            .take(record.hash(), record.key(), None)
-            .unwrap_or_default();
+        // The taken inflight is handed out and dropped by the caller, out of the lock critical section.
+        *taken = self.inflights.lock().take(record.hash(), record.key(), None);
+        let notifiers = taken.as_ref().map(|taken| taken.notifiers.len()).unwrap_or_default();
 
         if record.properties().phantom().unwrap_or_default() {
             if let Some(old) = self.indexer.remove(record.hash(), record.key()) {
@@ -165,7 +162,7 @@ where
 
                 garbages.push((Event::Replace, old));
             }
-            record.inc_refs(notifiers.len() + 1);
+            record.inc_refs(notifiers + 1);
             garbages.push((Event::Remove, record));
             self.metrics.memory_insert.increase(1);
             return;
@@ -205,7 +202,7 @@ where
         self.usage += weight;
         // Increase the reference count within the lock section.
         // The reference count of the new record must be at the moment.
-        record.inc_refs(notifiers.len() + 1);
+        record.inc_refs(notifiers + 1);
 
         match self.usage.cmp(&old_usage) {
             std::cmp::Ordering::Greater => self.metrics.memory_usage.increase((self.usage - old_usage) as _),
@@ -592,14 +589,14 @@ where
     #[cfg_attr(feature = "tracing", fastrace::trace(name = "foyer::memory::raw::insert_inner"))]
     fn insert_inner(&self, record: Arc<Record<E>>, source: Source) -> RawCacheEntry<E, S, I> {
         let mut garbages = vec![];
-        let mut notifiers = vec![];
+        let mut taken = None;
 
         self.inner.shards[self.shard(record.hash())]
             .write()
-            .with(|mut shard| shard.emplace(record.clone(), &mut garbages, &mut notifiers));
+            .with(|mut shard| shard.emplace(record.clone(), &mut garbages, &mut taken));
 
         // Notify waiters out of the lock critical section.
-        for notifier in notifiers {
+        for notifier in taken.into_iter().flat_map(|taken| taken.notifiers) {
             let _ = notifier.send(Ok(Some(RawCacheEntry {
                 pipe: self.pipe.clone(),
                 record: record.clone(),
@@ -1394,9 +1391,9 @@ where
                 let required_fetch = required_fetch_builder(ctx);
                 Try::SetStateAndContinue(RawFetchState::FetchRequired { required_fetch })
             }
-            FetchOrTake::Notifiers(notifiers) => Try::SetStateAndContinue(RawFetchState::Notify {
+            FetchOrTake::Notifiers(taken) => Try::SetStateAndContinue(RawFetchState::Notify {
                 res: Some(res_no_fetch),
-                notifiers,
+                notifiers: taken.notifiers,
             }),
         }
     }
@@ -1426,8 +1423,9 @@ where
         key: &E::Key,
         inflights: &Arc<Mutex<InflightManager<E, S, I>>>,
     ) -> Try<E, S, I, C> {
-        let notifiers = match inflights.lock().take(hash, key, Some(id)) {
-            Some(notifiers) => notifiers,
+        let taken = inflights.lock().take(hash, key, Some(id));
+        let notifiers = match taken {
+            Some(taken) => taken.notifiers,
             None => {
                 return Try::Ready;
             }
@@ -1472,12 +1470,12 @@ where
             RawFetchState::Notify { .. } | RawFetchState::Ready => return,
             RawFetchState::Init { .. } | RawFetchState::FetchOptional { .. } | RawFetchState::FetchRequired { .. } => {}
         }
-        if let Some(notifiers) = this
+        let taken = this
             .inflights
             .lock()
-            .take(*this.hash, this.key.as_ref().unwrap(), Some(*this.id))
-        {
-            for notifier in notifiers {
+            .take(*this.hash, this.key.as_ref().unwrap(), Some(*this.id));
+        if let Some(taken) = taken {
+            for notifier in taken.notifiers {
                 let _ =
                     notifier
                         .send(Err(Error::new(ErrorKind::TaskCancelled, "fetch task cancelled")
